@@ -17,11 +17,11 @@ PROPS = {
     "C01": dict(tags=["C01"], runs=[
         R("rand", "64", "core", 260, 80), R("plain", "64", "core", 160, 80), R("det", "64", "core", 160, 80),
         R("rand", "64", "core", 60, 80, mode="unscripted"), R("rand", "64", "prims", 1, 1, thor=(2, 1)),
-        R("randfast", "64", "core", 80, 80)]),
+        R("randfast", "64", "core", 80, 80), R("rand", "64", "inline", 1, 1)]),
     "C02": dict(tags=["C02"], runs=[
         R("rand", "32", "core", 260, 80), R("plain", "32", "core", 160, 80), R("det", "32", "core", 160, 80),
         R("rand", "32", "core", 60, 80, mode="unscripted"), R("rand", "32", "prims", 1, 1, thor=(2, 1)),
-        R("randfast", "32", "core", 80, 80)]),
+        R("randfast", "32", "core", 80, 80), R("rand", "32", "inline", 1, 1)]),
     "C03": dict(tags=["C03"], runs=[
         R("rand", "typed", "fits", 1, 1), R("rand", "typed", "typed", 120, 60), R("rand", "typed", "typediter", 30, 40)]),
     "C04": dict(tags=["C04"], runs=[
